@@ -19,7 +19,8 @@ from harness.c03 import mk_arbiter, STATUS_SET  # noqa: E402
 
 PROPERTY = "C10"
 CASE = {}
-KERNELS = ["gunicorn.arbiter:Arbiter.reload", "gunicorn.arbiter:Arbiter.handle_hup", "gunicorn.arbiter:Arbiter.setup",
+KERNELS = ["gunicorn.app.base:BaseApplication.reload", "gunicorn.app.base:BaseApplication.do_load_config",
+           "gunicorn.app.base:Application.load_config", "gunicorn.app.base:Application.chdir", "gunicorn.arbiter:Arbiter.reload", "gunicorn.arbiter:Arbiter.handle_hup", "gunicorn.arbiter:Arbiter.setup",
            "gunicorn.arbiter:Arbiter.spawn_worker", "gunicorn.arbiter:Arbiter.manage_workers",
            "gunicorn.arbiter:Arbiter.kill_worker", "gunicorn.arbiter:Arbiter.reap_workers",
            "gunicorn.arbiter:Arbiter.murder_workers", "gunicorn.arbiter:Arbiter.run"]
@@ -195,6 +196,81 @@ def reload_(k: int, w2: int, bi: int, pf: int, tape: List[int], st: List[int], h
     return PidRec.log.index(("unlink", old_pf)) < PidRec.log.index(("create", new_pf, 1))
 
 
+# ---- config re-load (app/base.py): the master must survive a HUP whatever the configured working directory ---------------
+import gunicorn.app.base as B  # noqa: E402
+from argparse import Namespace  # noqa: E402
+from gunicorn.config import Config  # noqa: E402
+
+
+def reload_config(w1: int, w2: int, rel: bool, has_chdir: bool, nreload: int) -> bool:
+    """
+    pre: 1 <= w1 <= 3 and 1 <= w2 <= 3 and 1 <= nreload <= 2
+    post: __return__
+    """
+    # real Application.reload -> do_load_config -> load_config -> chdir(); the config file is named relative to the
+    # directory gunicorn was started in (or absolutely) and may itself set `chdir`
+    w1, w2, nreload = pick(w1, 1, 3), pick(w2, 1, 3), pick(nreload, 1, 2)
+    with W._untraced():
+        start = Config().chdir                 # the directory the master was started in
+    state = {"cwd": start, "workers": w1}
+    fname = "conf.py" if rel else start.rstrip("/") + "/conf.py"
+
+    def resolve(p):
+        return p if p.startswith("/") else state["cwd"].rstrip("/") + "/" + p
+
+    class App(B.Application):
+        def __init__(self_):
+            self_.usage = self_.prog = self_.callable = self_.logger = None
+            self_.cfg = None
+
+        def init(self_, parser, opts, args):
+            return {}
+
+        def get_config_from_filename(self_, filename):
+            if not B.os.path.exists(filename):
+                raise RuntimeError("%r doesn't exist" % filename)
+            d = {"workers": state["workers"]}
+            if has_chdir:
+                d["chdir"] = "/app"
+            return d
+    cli = Namespace(args=[], config=fname)
+    env = Namespace(args=[], config=None)
+    saved = (Config.parser, Config.get_cmd_args_from_env, B.os, B.sys, B.get_default_config_file)
+
+    class P:
+        def parse_args(self_, a=None):
+            return cli if a is None else env
+    Config.parser = lambda self_: P()
+    Config.get_cmd_args_from_env = lambda self_: []
+    real_os = saved[2]
+    B.os = ns("B.os", chdir=lambda p: state.__setitem__("cwd", resolve(p)),
+              path=ns("B.os.path", exists=lambda f: resolve(f) == start.rstrip("/") + "/conf.py" or resolve(f) == "/app",
+                      splitext=real_os.path.splitext, abspath=lambda p: resolve(p), isdir=lambda p: True,
+                      basename=real_os.path.basename, dirname=real_os.path.dirname, join=real_os.path.join),
+              environ=real_os.environ, getcwd=lambda: state["cwd"])
+    B.sys = ns("B.sys", stderr=ns("stderr", write=lambda s_: None, flush=lambda: None), path=[], exit=real_exit,
+               argv=["gunicorn"], exc_info=lambda: (None, None, None))
+    B.get_default_config_file = lambda: None
+    app = App()
+    try:
+        try:
+            app.do_load_config()
+            if app.cfg.workers != w1:
+                return False
+            for _ in range(nreload):
+                state["workers"] = w2            # the operator edits the file, then sends HUP
+                app.reload()
+        except SystemExit:
+            return False                         # the master would die on HUP
+    finally:
+        Config.parser, Config.get_cmd_args_from_env, B.os, B.sys, B.get_default_config_file = saved
+    return app.cfg.workers == w2 and state["cwd"] == ("/app" if has_chdir else start)
+
+
+def real_exit(code=0):
+    raise SystemExit(code)
+
+
 def reload_twin(k: int, w2: int, bi: int, pf: int, tape: List[int], st: List[int], hups: int, wrap: bool) -> bool:
     """
     pre: k == CASE["k"] and 1 <= w2 <= 3 and 0 <= pf <= 2 and 1 <= hups <= CASE["hups"] and bi == CASE["bi"]
@@ -223,5 +299,8 @@ OBLIGATIONS = [
        bound="old pool 0..2 (thorough 3) workers, new workers 1..3, new bind = same / same with tcp:// prefix / other port / same "
              "with different host case / other host name (real Config parsing), pid counter wrapped or not, pid file none/same/different, "
              "crash tape <=1 (2) over every kill/sleep boundary, 1 (2) HUPs, 4 quiet loops"),
+    Ob("C10.reload_config", "reload_config", timeout=600,
+       bound="real Application.reload/load_config/chdir: config file named relatively or absolutely, setting chdir or not, "
+             "workers 1..3 -> 1..3, one or two reloads"),
     Ob("C10.reload.twin", "reload_twin", cases=[{"k": 2, "bi": 1, "wrap": True, "tape": 1, "hups": 1}], expect="refute", timeout=300),
 ]
